@@ -44,7 +44,7 @@ fn benign_rule(rng: &mut Rng, pred: &Prediction) -> Rule {
         4 => Rule::new("eintr_read", *rng.pick(&["*", "@0", "**"]), rng.below(4), "-"),
         5 => Rule::new("eintr_write", *rng.pick(&["*", "@1", "@2", "**"]), rng.below(4), "-"),
         6 => Rule::new("eintr_open", "*", rng.below(4), "-"),
-        _ => Rule::new("clockjump", "-", rng.range(1, 2), *rng.pick(&[1u64, 999_999_999, 3_600_000_000_000, 86_400_000_000_000_000])),
+        _ => Rule::new("clockjump", "-", rng.range(1, 2), *rng.pick(&[1i64, 999_999_999, 3_600_000_000_000, 86_400_000_000_000_000, 400_000_000_000_000_000, -3_600_000_000_000, -86_400_000_000_000])),
     }
 }
 
@@ -117,6 +117,10 @@ pub fn add_plan(rng: &mut Rng, profile: &str, tree: &Tree, inv: &mut Inv, oracle
     // again without one" (recovery) needs a clean successor
     if rng.chance(0.35) {
         return;
+    }
+    if matches!(&inv.shape, Shape::FormatAll { dir: None, .. }) && rng.chance(0.12) {
+        // the current directory was deleted under the process
+        inv.plan.push(Rule::new("getcwd", "*", 1, *rng.pick(&["ENOENT", "ENOENT", "EACCES", "ESTALE"])));
     }
     if rng.chance(0.1) {
         // somebody else holds every advisory lock the process asks for
@@ -208,8 +212,13 @@ pub fn add_plan(rng: &mut Rng, profile: &str, tree: &Tree, inv: &mut Inv, oracle
             HardKind::OpenDir => pick_position(rng, &walk_dirs).map(|d| Rule::new("opendir", &d, 1, *rng.pick(&["EACCES", "EIO", "EMFILE"]))),
             HardKind::ReadDir => pick_position(rng, &walk_dirs).map(|d| Rule::new("readdir", &d, rng.below(4), "EIO")),
             HardKind::StdinEio => Some(Rule::new("read", "@0", format!("+{}", rng.below(inv.stdin.as_ref().map(|b| b.0.len()).unwrap_or(0) + 1)), "EIO")),
-            HardKind::StdStream => Some(Rule::new("write", *rng.pick(&["@1", "@1", "@2"]), format!("+{}", rng.below(64)), *rng.pick(&["EPIPE", "ENOSPC", "EIO"]))),
-            HardKind::Crash => Some(Rule::new("crash", "**", rng.range(1, events_hint.max(8)), 0)),
+            HardKind::StdStream => Some(Rule::new("write", *rng.pick(&["@1", "@1", "@2"]), format!("+{}", rng.below(64)), *rng.pick(&["EPIPE", "ENOSPC", "EIO", "EAGAIN"]))),
+            HardKind::Crash => Some(if rng.chance(0.3) {
+                // Ctrl-C / a supervisor's TERM / a closed terminal in the middle of the run
+                Rule::new("signal", "**", rng.range(1, events_hint.max(8)), *rng.pick(&[2, 15, 1]))
+            } else {
+                Rule::new("crash", "**", rng.range(1, events_hint.max(8)), 0)
+            }),
         };
         if let Some(r) = rule {
             inv.plan.push(r);
